@@ -66,6 +66,8 @@ def _indices_of(base) -> List[str]:
             else:
                 return []
         return out
+    if base[:1] == ("alt",) and base[1] and all(S.is_attr(x, S.SELF) and x[2] in DEF_ATTRS for x in base[1]):
+        return [x[2] for x in base[1]]       # one of several indices (an element of a table of them, however the table was written)
     return []
 
 
